@@ -283,15 +283,17 @@ def replay(job, o, workroot, repo):
     if "a.length" in v:
         cands.append([_num(v.get("a.start")), _num(v.get("a.length")), _num(v.get("b.start")), _num(v.get("b.length")),
                       _num(v.get("h:x", 0))])
-    # 2. replay search: small exhaustive neighbourhood (ranges differing at one end, empty operands, index at the edges)
+    # 2. replay search: small exhaustive neighbourhood (ranges differing at one end, empty operands, index at the edges,
+    #    operands longer than the live range but within capacity)
+    xs_needed = op in ("at", "set_offset", "fill")
     for amin in (0, -2, 3):
         for alen in (0, 1, 4):
             for bmin in (amin, amin + 1, amin - 2):
-                for blen in (alen, alen + 3, max(alen - 1, 0), 0):
-                    for x in (amin - 1, amin, amin + alen - 1, amin + alen):
+                for blen in (alen, alen + 3, max(alen - 1, 0), 0, alen + 5, alen + 7):
+                    for x in ((amin - 1, amin, amin + alen - 1, amin + alen) if xs_needed else (0,)):
                         cands.append([amin, alen, bmin, blen, x])
-    for c in cands[:400]:
-        for extra in ((0, 0), (2, 5)):
+    for c in cands[:700]:
+        for extra in ((0, 0), (2, 5), (5, 0)):
             st, detail = run_native(exe, [op] + c + list(extra))
             tried.append(c)
             if st == "confirmed":
